@@ -173,18 +173,35 @@ def check_filter(ssj, base, fspec, req, view, rec, case, apis=('tables', 'pair',
                 report('filter_pair', i, j)
     if 'candset' in apis and pairs:
         lk, rk = base['l_key'], base['r_key']
+        # interleave pairs the filter may drop (shifted partners) so that kept and dropped rows alternate
+        n_l, n_r = len(view.lkeys), len(view.rkeys)
+        extra = [(i, (j + 1) % n_r) for (i, j) in pairs[:200] if not view.rmiss[(j + 1) % n_r]]
+        mixed = []
+        for x, pq in enumerate(pairs):
+            mixed.append(pq)
+            if x < len(extra) and extra[x] not in req:
+                mixed.append(extra[x])
+        required_rows = [x for x, pq in enumerate(mixed) if pq in req]
+        pairs_cs = mixed
         lkeys, rkeys = T.column(base['ltable'], lk), T.column(base['rtable'], rk)
         cs = T.table_spec(['_id', 'l_' + lk, 'r_' + rk],
-                          [[n, lkeys[i], rkeys[j]] for n, (i, j) in enumerate(pairs)])
+                          [[n, lkeys[i], rkeys[j]] for n, (i, j) in enumerate(pairs_cs)])
+        # candidate sets produced by filter_tables(n_jobs>1) / allow_missing=True carry repeated
+        # index labels (pd.concat of per-job results): use such an index in part of the cases
+        style = (len(pairs) + len(repr(fspec))) % 3
+        if style == 1:
+            cs['index'] = [n % 5 for n in range(len(pairs_cs))]
+        elif style == 2:
+            cs['index'] = ['c%d' % (n // 2) for n in range(len(pairs_cs))]
         call = dict(base, api='filter_candset', filter=fspec, candset=cs, c_l_key='l_' + lk,
                     c_r_key='r_' + rk, n_jobs=base.get('n_jobs', 1))
         try:
             out = T.exec_call(ssj, call, objs)
             rec.count('filter_candset_calls')
             kept = set(out['_id'].tolist())
-            for n, (i, j) in enumerate(pairs):
+            for n in required_rows:
                 if n not in kept:
-                    report('filter_candset', i, j)
+                    report('filter_candset', pairs_cs[n][0], pairs_cs[n][1])
         except Exception as e:
             rec.count('calls_raised')
             rec.add('raised', '%s: %s' % (type(e).__name__, str(e)[:80]))
